@@ -491,6 +491,7 @@ pub fn random_base_pub<B: Elem>(rng: &mut Rng) -> B { random_base::<B>(rng) }
 
 pub fn record<D: CurveDrv>(cfg: &str, seed: u64, n: usize, profile: &str, out: &mut dyn std::io::Write) -> Report {
     use ark_ec::CurveConfig;
+    if profile == "ser" { return crate::ser::record_big::<D>(cfg, seed, n, out); }
     let mut rep = Report::default();
     let mut rng = Rng(seed ^ 0xC0FFEE);
     const K: usize = 4;
